@@ -35,7 +35,8 @@ Definition cstatus_of (n : N) : option cstatus :=
              | 4 => Some CFailed | 5 => Some CClosed | _ => None end.
 Definition sstatus_of (n : N) : option sstatus :=
   match n with 0 => Some SNew | 1 => Some SRemap | 2 => Some SSentConnect | 3 => Some SSucceeded
-             | 4 => Some SDetached | 5 => Some SFailed | 6 => Some SClosed | _ => None end.
+             | 4 => Some SDetached | 5 => Some SFailed | 6 => Some SClosed | 7 => Some SNewResolve | 8 => Some SSentResolve
+             | _ => None end.
 
 Definition hop_p : P hop := a <- num ;; b <- num ;; ret {| h_rid := a; h_nick := b |}.
 
